@@ -23,9 +23,13 @@ LineOK == ev.ev = "line" =>
     /\ (~ev.crashed \/ Rep(ev.p, "logs.New panics on a log line", ev.line))
     /\ (ev.crashed \/ ev.n = 1 \/ Rep("C14", "one record in, not exactly one event out", ev.n))
     /\ (ev.crashed \/ ev.n # 1 \/ ev.mode = "raw" \/ Real = Lift(Expected(ev.rec))
-          \/ Rep("C15", "the event does not carry the record's own values, faithfully decoded",
+          \/ Rep(ev.p, IF ev.p = "C14" THEN "the reported event carries values that are not in the input record" ELSE "the event does not carry the record's own values, faithfully decoded",
                  [want |-> Lift(Expected(ev.rec)) \ Real, got |-> Real \ Lift(Expected(ev.rec))]))
     /\ (ev.crashed \/ ev.n # 1 \/ Real = DecodeLine(ev.line)
           \/ Drift("the model's stages decode the line differently from the real code", [model |-> DecodeLine(ev.line) \ Real, real |-> Real \ DecodeLine(ev.line)]))
+\* cli: the same records through the REAL aa-log binary in its default display mode: every value of the
+\* record must be on the printed line as it is (missing: the values that are not)
+CliOK == ev.ev = "cli" =>
+    (ev.missing = <<>> \/ Rep(ev.p, "aa-log prints something else than the record's own value", [missing |-> ev.missing, line |-> ev.shown]))
 Accepted == TLCGet("stats").diameter = Len(Trace) + 1
 =============================================================================
